@@ -72,6 +72,10 @@ def gen_dump(rng, mode='any', perturb=False):
             inner = []
             if rng.random() < 0.3:                     # a record of another class inside the syscall window
                 inner = [lambda tid=tid: s.ev('MACH_SCHED', T_NONE, tid, [1, 2, 3, 4]) and []]
+            if rng.random() < 0.3:                     # a whole window of another thread inside this one
+                other = tids[(i + 1 + rng.randrange(len(tids) - 1)) % len(tids)]
+                inner = inner + [lambda other=other: s.syscall('BSC_getpid', other, [0, 0, 0, 0],
+                                                               [0, rng.randrange(1, 1000), 0, 0]) and []]
             s.syscall(name, tid, a, [rng.choice([0, 0, 2, 35]), rng.randrange(0, 1000), 0, 0], lk, inner=inner)
         elif k < 0.30:
             name = 'MSC_mach_vm_allocate_trap'
